@@ -45,9 +45,10 @@ type c20Stmt struct {
 }
 
 type c20Gen struct {
-	g     *G
-	id    int
-	kinds map[string]bool
+	g      *G
+	id     int
+	kinds  map[string]bool
+	lastFn string // a function defined earlier in the session whose body has bare expression statements
 }
 
 func (c *c20Gen) nid() int { c.id++; return c.id }
@@ -76,6 +77,13 @@ func (c *c20Gen) stmt() c20Stmt {
 	case 1:
 		return one("assign", g.Str(fmt.Sprintf("x = %d", id), fmt.Sprintf("a = b = %d", id), fmt.Sprintf("x = x + %d", id), fmt.Sprintf("a = %d; log.append(a)", id), "import math", "pass"))
 	case 2:
+		if c.lastFn != "" && g.Chance(1, 3) {
+			c.kinds["call-of-session-function"] = true
+			if g.Bool() {
+				return one("echo", fmt.Sprintf("%s(%d)", c.lastFn, id))
+			}
+			return one("assign", fmt.Sprintf("x = %s(%d)", c.lastFn, id))
+		}
 		return one("echo", g.Str(fmt.Sprintf("%d + 1", id), "'ab'", "x", "[1, 2]", "(x, 'q')", "None", "_", "log", "x == x", fmt.Sprintf("log.append(%d)", id), "1.5", "{'k': 1}"))
 	case 3:
 		lines := []string{fmt.Sprintf("if x %% 2 == %d:", g.N(2)), fmt.Sprintf("    log.append(%d)", id)}
@@ -98,6 +106,12 @@ func (c *c20Gen) stmt() c20Stmt {
 		return multi("for-nested", lines, []bool{true, true, false, false})
 	case 5:
 		lines := []string{fmt.Sprintf("def f%d(a, b=2):", id), "    c = a + b", "    return c"}
+		if g.Chance(1, 3) {
+			// bare expression statements inside a body never echo, however the function is called later
+			c.kinds["def-with-expression-statements"] = true
+			c.lastFn = fmt.Sprintf("g%d", id)
+			return multi("def", []string{fmt.Sprintf("def g%d(a):", id), "    a", "    a + 1", "    'text'", fmt.Sprintf("    log.append(('g%d', a))", id), "    return a * 2"}, []bool{true, false, false, false, false, false})
+		}
 		if g.Bool() {
 			lines = append([]string{"@deco"}, lines...)
 			return multi("def-decorated", lines, []bool{true, true, false, false})
@@ -128,6 +142,10 @@ func (c *c20Gen) stmt() c20Stmt {
 		return multi("try", lines, []bool{true, false, false, true, false, true, false})
 	case 12:
 		lines := []string{fmt.Sprintf("class K%d:", id), "    v = 1", "    def m(self):", "        return self.v", fmt.Sprintf("log.append(K%d().m())", id)}
+		if g.Bool() {
+			lines = []string{fmt.Sprintf("class K%d:", id), "    v = 1", "    v + 1", "    def m(self):", "        self.v", "        return self.v", ""}
+			return multi("class", lines[:6], []bool{true, false, false, true, false, false})
+		}
 		// the last line is a separate statement: split below
 		st := multi("class", lines[:4], []bool{true, false, true, false})
 		return st
@@ -232,6 +250,47 @@ func c20RunReference(stmts []c20Stmt) c20Outcome {
 	return c20Outcome{c20Globals(mod.Globals), w.String(), prints}
 }
 
+// the file side: the same statements run as a program (exec mode, statement by statement); only a top-level
+// expression statement echoes: its value is taken in eval mode. Nothing here uses single-mode compilation.
+func c20RunFile(stmts []c20Stmt) c20Outcome {
+	ctx, w := NewCtx(nil, nil)
+	defer ctx.Close()
+	mod, _ := ctx.ModuleInit(&py.ModuleImpl{Info: py.ModuleInfo{FileDesc: "<stdin>"}})
+	var prints []string
+	old := vm.PrintExpr
+	vm.PrintExpr = func(s string) { prints = append(prints, "UNEXPECTED-ECHO:"+s) }
+	defer func() { vm.PrintExpr = old }()
+	pre, _ := py.Compile(c20Prelude, "<stdin>", py.ExecMode, 0, true)
+	ctx.RunCode(pre, mod.Globals, mod.Globals, nil)
+	for _, st := range stmts {
+		if st.kind == "comment" {
+			continue
+		}
+		src := strings.Join(st.lines, "\n") + "\n"
+		// an expression statement is what compiles in eval mode
+		if code, err := py.Compile(strings.TrimSpace(src), "<stdin>", py.EvalMode, 0, true); err == nil {
+			val, err := ctx.RunCode(code, mod.Globals, mod.Globals, nil)
+			if err != nil || val == nil {
+				continue
+			}
+			if val != py.None {
+				if rs, err := py.Repr(val); err == nil {
+					prints = append(prints, fmt.Sprint(rs))
+				}
+				mod.Globals["_"] = val // a None value is not echoed and leaves _ alone
+			}
+			continue
+		}
+		code, err := py.Compile(src, "<stdin>", py.ExecMode, 0, true)
+		if err != nil {
+			prints = append(prints, "Compile error")
+			continue
+		}
+		ctx.RunCode(code, mod.Globals, mod.Globals, nil)
+	}
+	return c20Outcome{c20Globals(mod.Globals), w.String(), prints}
+}
+
 func TestC20(t *testing.T) {
 	r := StartRun(t, "C20")
 	defer r.Finish()
@@ -239,6 +298,7 @@ func TestC20(t *testing.T) {
 		"try/except/finally, multi-line brackets with blank lines inside, triple-quoted strings containing blank lines, backslash continuation, comment lines between statements and inside "+
 		"blocks, statements raising at run time, syntax errors on the first and on a later line) fed to repl.REPL one physical line at a time with a blank line after each multi-line "+
 		"statement; oracle: the same statements compiled as a whole in single mode and run one by one in a fresh context - session globals, captured stdout and the echo sequence must be equal - "+
+		"and against the statements run as a program: exec mode statement by statement, where only top-level expression statements echo (value taken in eval mode) - "+
 		"plus the prompt model (continuation prompt whenever the statement is incomplete, normal prompt once everything entered has been executed). Non-trivial: a multi-line statement with a "+
 		"nested block or open bracket/string and an error statement or echo; distinct by session text.")
 	r.Extra("assumptions", []string{"the reference side uses gpython's own single-mode compilation: the property is an equivalence between two ways of driving gpython"})
@@ -303,6 +363,16 @@ func TestC20(t *testing.T) {
 			fail("echo", fmt.Sprint(want.prints), fmt.Sprint(got.prints), "echo / error report sequence differs")
 		case got.stdout != want.stdout:
 			fail("stdout", want.stdout, got.stdout, "captured stdout differs")
+		default:
+			file := c20RunFile(stmts)
+			switch {
+			case got.globals != file.globals:
+				fail("file:globals", file.globals, got.globals, "session namespace differs from running the statements as a program")
+			case fmt.Sprint(got.prints) != fmt.Sprint(file.prints):
+				fail("file:echo", fmt.Sprint(file.prints), fmt.Sprint(got.prints), "only top-level expression statements echo: sequence differs from the values of those expressions")
+			case got.stdout != file.stdout:
+				fail("file:stdout", file.stdout, got.stdout, "captured stdout differs from the program run")
+			}
 		}
 	})
 }
@@ -343,6 +413,15 @@ func init() {
 			return "echo", fmt.Sprint(want.prints) + " vs " + fmt.Sprint(got.prints), nil
 		case got.stdout != want.stdout:
 			return "stdout", want.stdout + " vs " + got.stdout, nil
+		}
+		file := c20RunFile(stmts)
+		switch {
+		case got.globals != file.globals:
+			return "file:globals", "expected " + file.globals + " actual " + got.globals, nil
+		case fmt.Sprint(got.prints) != fmt.Sprint(file.prints):
+			return "file:echo", fmt.Sprint(file.prints) + " vs " + fmt.Sprint(got.prints), nil
+		case got.stdout != file.stdout:
+			return "file:stdout", file.stdout + " vs " + got.stdout, nil
 		}
 		return "", "", nil
 	}
